@@ -37,11 +37,18 @@ def try_from_map(prog, adt_path):
     if cr is None:
         return None, None
     f = None
+    family = []
+    base = "<" + adt_path + " as core::convert::TryFrom<u32>>::try_from"
     for g in cr.fn_list:
-        if g.path.startswith("<" + adt_path + " as core::convert::TryFrom<u32>>::try_from"):
+        if g.path == base:
             f = g
+        if g.path.startswith(base):
+            family.append(g)
     if f is None:
         return None, None
+    out = table_map(cr, family, adt_path)
+    if out is not None:
+        return out, f
     out = {}
     for b, blk in enumerate(f.blocks):
         t = blk[1]
@@ -56,6 +63,36 @@ def try_from_map(prog, adt_path):
             if var is not None:
                 out[int(v)] = var
     return out, f
+
+
+def table_map(cr, family, adt_path):
+    """the conversion written as a lookup in a constant array of variants indexed by the code: {index: variant}, or None.
+    Only accepted when the conversion does no arithmetic of its own (the index is the code, converted)."""
+    tables = []
+    arith = False
+    for g in family:
+        for blk in g.blocks:
+            if blk[2]:
+                continue
+            for st in blk[0]:
+                if st[0] != "=":
+                    continue
+                rv = st[2]
+                if rv[0] == "bin" and rv[1].replace("WithOverflow", "").replace("Unchecked", "") in ("Add", "Sub", "Mul", "Div", "Rem", "Shl", "Shr", "BitAnd", "BitOr", "BitXor"):
+                    arith = True
+                ops = [rv[1]] if rv[0] == "use" else []
+                for o in ops:
+                    if o[0] == "k" and isinstance(o[1], dict) and o[1].get("item") in cr.consts:
+                        k = cr.consts[o[1]["item"]]
+                        if k["ty"].startswith("[" + adt_path + ";"):
+                            tables.append(k)
+    if len(tables) != 1 or arith:
+        return None
+    val = tables[0]["value"].strip()
+    if not (val.startswith("[") and val.endswith("]")):
+        return None
+    names = [x.strip().split("::")[-1] for x in val[1:-1].split(",") if x.strip()]
+    return dict(enumerate(names))
 
 
 def first_variant(f, start, adt_path, limit=12):
